@@ -326,6 +326,7 @@ pub fn run_writer(j: &Value, t: &mut Trace, run_id: usize) -> Option<(Vec<u8>, V
     let mut filev = json!({"ev": "file", "len": bytes.len() as i64, "md5": md5_hex(&bytes),
         "desc": describe_file(&bytes, start_offset), "enc": enc, "fin": finb, "branch": branch,
         "whole_frames": whole_frames as i64, "light": light,
+        "constant": (0..channels as usize).all(|c| whole.iter().skip(c).step_by(channels.max(1) as usize).all(|s| *s == whole[c])) && !whole.is_empty(),
         "pcm_md5": md5_hex(&samples_to_bytes(whole, bps.clamp(1, 32), false)),
         "len_before": before.len() as i64,
         "fs_before": split_blocks(&before[before.len().min(start_offset)..]).map(|(_, p)| (p + start_offset) as i64).unwrap_or(-1),
